@@ -25,9 +25,14 @@ func writeJSON(path string, v interface{}) {
 }
 
 func main() {
-	log.SetOutput(io.Discard) // kustomize prints deprecation warnings through the std logger
+	log.SetOutput(io.Discard)
+	// kustomize prints deprecation warnings straight to os.Stderr; keep our own handle and silence the rest
+	realStderr = os.Stderr
+	if dn, err := os.OpenFile(os.DevNull, os.O_WRONLY, 0); err == nil && os.Getenv("VERIF_KEEP_STDERR") == "" {
+		os.Stderr = dn
+	}
 	if len(os.Args) < 2 {
-		fmt.Fprintln(os.Stderr, "usage: vh corr|oracle|list ...")
+		fmt.Fprintln(realStderr, "usage: vh corr|oracle|list ...")
 		os.Exit(2)
 	}
 	switch os.Args[1] {
@@ -42,7 +47,7 @@ func main() {
 		fs.Parse(os.Args[2:])
 		rep, err := runCorr(strings.Split(*comps, ","), *seed, *n, *tier, *drv)
 		if err != nil {
-			fmt.Fprintln(os.Stderr, "corr:", err)
+			fmt.Fprintln(realStderr, "corr:", err)
 			os.Exit(3)
 		}
 		writeJSON(*out, rep)
@@ -57,7 +62,7 @@ func main() {
 		fs.Parse(os.Args[2:])
 		o, ok := oracles[*prop]
 		if !ok {
-			fmt.Fprintln(os.Stderr, "no oracle for", *prop)
+			fmt.Fprintln(realStderr, "no oracle for", *prop)
 			os.Exit(3)
 		}
 		rep := o(*seed, *n, *tier, *work)
@@ -71,10 +76,12 @@ func main() {
 			f(os.Args[2:])
 			return
 		}
-		fmt.Fprintln(os.Stderr, "unknown command", os.Args[1])
+		fmt.Fprintln(realStderr, "unknown command", os.Args[1])
 		os.Exit(2)
 	}
 }
+
+var realStderr *os.File
 
 var extraCmds = map[string]func(args []string){}
 
